@@ -1,2 +1,112 @@
-(* Spec/SmtextSpec.v — specification-level definitions. *)
+(* Spec/SmtextSpec.v — what property C20 talks about: NCBI tables and their
+   textual layouts, the pairs a table denotes, mirrored conflicts, key order. *)
 From Bio Require Import Base.
+From Bio.Model Require Import Smtext.
+
+(* ---- tables ---------------------------------------------------------------- *)
+(* Labels are the bytes as written in the file; '*' denotes the gap symbol. *)
+Definition lab (b : byte) : byte := if b =? 42 then GAP else b.
+
+Record table : Type := { t_cols : list byte; t_rows : list (byte * list F) }.
+
+(* every row has one score per column *)
+Definition rect (T : table) : Prop :=
+  Forall (fun r => length (snd r) = length (t_cols T)) (t_rows T).
+
+(* the (row, column) -> score pairs of a table, row by row *)
+Definition row_pairs (cols : list byte) (r : byte * list F) : list (key * F) :=
+  map (fun cx => ((lab (fst r), lab (fst cx)), snd cx)) (combine cols (snd r)).
+Definition pairs (T : table) : list (key * F) := flat_map (row_pairs (t_cols T)) (t_rows T).
+
+(* the matrix a table denotes (a repeated label denotes the later row/column) *)
+Definition matrix_of (T : table) : smatrix := matrix_of_entries (pairs T).
+
+Definition keys_unique (m : smatrix) : Prop := NoDup (map fst m).
+
+(* ---- layouts --------------------------------------------------------------- *)
+(* blanks inside a line: TAB, FF, CR, SPACE (LF ends the line) *)
+Definition lws (b : byte) : Prop := b = 9 \/ b = 12 \/ b = 13 \/ b = 32.
+Definition nonspace (b : byte) : Prop := is_space b = false.
+Definition token (t : bytes) : Prop := t <> [] /\ Forall nonspace t.
+Definition nolf (l : bytes) : Prop := Forall (fun b => b <> LF) l.
+(* the line fits bufio.Scanner's default buffer *)
+Definition short (l : bytes) : Prop := N.of_nat (length l) < 65536.
+
+(* tokens, each followed by a run of blanks that is non-empty when another
+   token follows *)
+Inductive Toks : list bytes -> bytes -> Prop :=
+| Toks_nil : Toks [] []
+| Toks_cons : forall t ts w rest,
+    token t -> Forall lws w -> (ts <> [] -> w <> []) -> Toks ts rest ->
+    Toks (t :: ts) (t ++ w ++ rest).
+
+(* a line carrying the tokens ts (at least one): any leading blanks, any
+   separators, any trailing blanks (a CR before the LF is one of them); its
+   first byte is not '#' (such a line would be a comment) *)
+Definition LineOf (ts : list bytes) (l : bytes) : Prop :=
+  exists lead body, l = lead ++ body /\ Forall lws lead /\ Toks ts body
+                    /\ ts <> [] /\ hd 0 l <> 35 /\ short l.
+
+(* ignored anywhere: empty lines (also after the Scanner strips a CR) and
+   lines whose first byte is '#' *)
+Definition CommentOrEmpty (l : bytes) : Prop :=
+  (l = [] \/ l = [CR] \/ exists r, l = 35 :: r /\ nolf r) /\ short l.
+(* whitespace-only lines: harmless before the column-label line only *)
+Definition BlankLine (l : bytes) : Prop := Forall lws l /\ short l.
+
+(* a score token: free of whitespace, and strconv.ParseFloat reads it as x *)
+Definition ScoreTok (o : foracle) (x : F) (t : bytes) : Prop :=
+  token t /\ parseF o t = Some x.
+
+(* the lines after the header: rows in table order, with ignored lines anywhere *)
+Inductive Body (o : foracle) : list (byte * list F) -> list bytes -> Prop :=
+| Body_nil : Body o [] []
+| Body_skip : forall rows l ls,
+    CommentOrEmpty l -> Body o rows ls -> Body o rows (l :: ls)
+| Body_row : forall r xs ts rows l ls,
+    nonspace r -> Forall2 (ScoreTok o) xs ts -> LineOf ([r] :: ts) l ->
+    Body o rows ls -> Body o ((r, xs) :: rows) (l :: ls).
+
+(* lines joined by LF, with or without a final LF *)
+Definition join_lines (ls : list bytes) (final_newline : bool) : bytes :=
+  join_with [LF] ls ++ (if final_newline then [LF] else []).
+
+Definition PreLine (l : bytes) : Prop := CommentOrEmpty l \/ BlankLine l.
+
+Definition HeaderLine (cols : list byte) (l : bytes) : Prop :=
+  cols <> [] /\ Forall nonspace cols /\ LineOf (map (fun c => [c]) cols) l.
+
+(* every textual layout of the table T *)
+Inductive TableLayout (o : foracle) (T : table) : bytes -> Prop :=
+| TL_intro : forall pre hdr body nl,
+    Forall PreLine pre -> HeaderLine (t_cols T) hdr -> Body o (t_rows T) body ->
+    TableLayout o T (join_lines (pre ++ hdr :: body) nl).
+
+(* ---- corrupted tables -------------------------------------------------------- *)
+Definition NotSkipped (l : bytes) : Prop := l <> [] /\ l <> [CR] /\ hd 0 l <> 35.
+
+(* the fields of a row line that must be rejected when there are n columns *)
+Definition BadFields (o : foracle) (n : nat) (fs : list bytes) : Prop :=
+  length fs <> S n                                            (* wrong number of values *)
+  \/ (exists f0 vs, fs = f0 :: vs /\ length f0 <> 1%nat)      (* multi-character label *)
+  \/ (exists f0 vs v, fs = f0 :: vs /\ In v vs /\ parseF o v = None).  (* non-numeric score *)
+
+Definition BadRowLine (o : foracle) (n : nat) (l : bytes) : Prop :=
+  nolf l /\ (~ short l \/ (NotSkipped l /\ BadFields o n (fields l))).
+
+Definition BadHeaderLine (l : bytes) : Prop :=
+  nolf l /\ (~ short l \/ (NotSkipped l /\ exists f, In f (fields l) /\ length f <> 1%nat)).
+
+(* ---- Symmetrical ------------------------------------------------------------- *)
+(* two mirrored pairs carry different scores (Go's != on float64) *)
+Definition conflict (m : smatrix) : Prop :=
+  exists a b v v2, a <> b /\ mlookup (a, b) m = Some v /\ mlookup (b, a) m = Some v2
+                   /\ feq v2 v = false.
+
+(* y is the original score x, or the ==-equal score the mirrored pair k' carries *)
+Definition original_score (m : smatrix) (k' : key) (x y : F) : Prop :=
+  y = x \/ (feq y x = true /\ mlookup k' m = Some y).
+
+(* ---- GoString ------------------------------------------------------------------ *)
+Definition key_lt (k1 k2 : key) : Prop :=
+  fst k1 < fst k2 \/ (fst k1 = fst k2 /\ snd k1 < snd k2).
